@@ -19,6 +19,7 @@ package keeper
 //@   ensures res == !linkPresent(k, key)
 //@   prop C15 C20
 //@ func (k Keeper) AppendPayloadLink(ctx, key, value) (err)
+//@   panic_requires len(key) > 0
 //@   modifies $kvHas, $kvVal
 //@   ensures err == nil && linkPresent(k, key) && linkValue(k, key) == value
 //@   ensures forall s: str, q: str :: {$kvHas[s][q]} !(s == storeOf(k.storeKey) && q == linkKey(key)) ==> $kvHas[s][q] == old($kvHas[s][q]) && $kvVal[s][q] == old($kvVal[s][q])
@@ -36,6 +37,7 @@ package keeper
 //@ pred sigPresent(k, q) = $kvHas[storeOf(k.storeKey)][sigKey(q)]
 //@ spec func sigBytes(k, q) str = $kvVal[storeOf(k.storeKey)][sigKey(q)]
 //@ func (k Keeper) AppendSignature(ctx, storageKey, signature) (ts)
+//@   panic_requires len(storageKey) > 0
 //@   modifies $kvHas, $kvVal
 //@   ensures ts == signature.Timestamp && sigPresent(k, storageKey)
 //@     && sigBytes(k, storageKey) == encOf("types.Signature", signature.Signature, signature.Algorithm, signature.Certificate, signature.Timestamp)
@@ -82,6 +84,7 @@ package keeper
 //@
 //@ // ---- C09: account creation never touches an existing account ----
 //@ func (k msgServer) CreateAccount(goCtx, msg) (resp, err)
+//@   panic_requires k.proto != nil
 //@   requires msg != nil
 //@   modifies $accTag, $accNum, $accSeq, $accPub, $accOV, $accDF, $accDV, $accStart, $accEnd, $accNextNum
 //@   ensures existingAccountsUntouched()
